@@ -80,6 +80,8 @@ Lemma sf_gconn c : sf (gconn c).  Proof. intros s. cbn. auto. Qed.
 Lemma sf_pconn c x : sf (pconn c x).  Proof. apply sf_modst. intros s. cbn. auto. Qed.
 Lemma sf_in_table i : sf (in_table i).  Proof. intros s. cbn. auto. Qed.
 Lemma sf_del_table i : sf (del_table i).  Proof. apply sf_modst. intros s. cbn. auto. Qed.
+Lemma sf_del_tables l : sf (del_tables l).
+Proof. induction l as [|i r IH]; cbn [del_tables]; [apply sf_ret | apply sf_bind; [apply sf_del_table | intros _; exact IH]]. Qed.
 Lemma sf_wake t : sf (wake t).
 Proof. apply sf_modst. intros s. destruct (alookup t (tasks s)); [destruct (nmem t (runq s))|]; cbn; auto. Qed.
 Lemma sf_wake_all l : sf (wake_all l).
@@ -195,7 +197,7 @@ Qed.
 (* ---- automation ---- *)
 Create HintDb po.
 Create HintDb sf.
-#[export] Hint Resolve sf_ret sf_getst sf_gsess sf_has_sess sf_gconn sf_pconn sf_in_table sf_del_table sf_wake sf_wake_all sf_spawn sf_block
+#[export] Hint Resolve sf_ret sf_getst sf_gsess sf_has_sess sf_gconn sf_pconn sf_in_table sf_del_table sf_del_tables sf_wake sf_wake_all sf_spawn sf_block
   sf_new_timer sf_alive sf_finish : sf.
 
 Ltac step_solve := split; [intros [?G1 ?G2]; split; cbn; auto | cbn; first [discriminate | auto]].
